@@ -152,6 +152,40 @@ def run(ctx, rep):
             if m and want not in olines:
                 rep.violation("passthrough-altered:relative-paths", f"line {l!r} was not passed through unchanged with --relative-paths", case)
                 break
+    # 2c. the real binary in every presentation mode on pure text streams (no construct at all): the output is the input,
+    #     whatever the geometry; only lines beyond --max-line-length may be cut
+    PMODES = [[], ["--side-by-side"], ["--side-by-side", "--wrap-max-lines", "0"], ["--side-by-side", "--wrap-max-lines", "unlimited"],
+              ["--side-by-side", "--width", "40"], ["--side-by-side", "--wrap-max-lines", "0", "--width", "80", "--max-line-length", "3000"],
+              ["--line-numbers"], ["--navigate"], ["--hyperlinks"], ["--width", "20"], ["--max-line-length", "0"],
+              ["--side-by-side", "--max-line-length", "0"], ["--diff-so-fancy"], ["--color-only"], ["--raw"], ["--width", "variable"],
+              ["--side-by-side", "--line-fill-method", "spaces"], ["--tabs", "4"], ["--keep-plus-minus-markers"]]
+    pjobs = []
+    for _ in range(ctx.n(25, 400)):
+        tl = []
+        for _k in range(rng.randint(3, 10)):
+            t = gen_text_line(rng)
+            if rng.random() < 0.3:
+                t = t + " " + " ".join(rng.choice(WORDS) for _ in range(rng.randint(15, 40)))     # 100-300 columns
+            tl.append(t)
+        for mode in ([rng.choice(PMODES) for _ in range(4)] if ctx.quick() else PMODES):
+            pjobs.append((["--no-gitconfig"] + mode, tl))
+    def pone(j):
+        args, tl = j
+        return ctx.run_delta(args, ("\n".join(tl) + "\n").encode("utf-8", "surrogateescape"))
+    for (args, tl), (rc, out, err) in zip(pjobs, parallel_map(pone, pjobs)):
+        data = ("\n".join(tl) + "\n").encode("utf-8", "surrogateescape")
+        case = dict(kind="relative-paths", args=args, env={}, input_b64=b64(data))
+        rep.case(key=("pmode", tuple(args), tuple(tl)), nontrivial=any(len(t) > 100 for t in tl), sample=dict(shape="text-in-mode", args=args))
+        rep.count("shape:text-in-mode")
+        if rc != 0:
+            rep.violation(f"exit:{rc}", f"delta {' '.join(args)} exited {rc}: {err[-200:]!r}", case); continue
+        want = [t.encode("utf-8", "surrogateescape") for t in tl]
+        want = [w[:-1] if w.endswith(b"\r") else w for w in want]
+        got = out.split(b"\n")[:-1]
+        if got != want:
+            k = next((k for k, (a, b) in enumerate(zip(got, want)) if a != b), min(len(got), len(want)))
+            rep.violation("passthrough-altered:" + (args[1] if len(args) > 1 else "default"),
+                          f"delta {' '.join(args)}: line {k} {want[k][:60] if k < len(want) else None!r} came out as {got[k][:80] if k < len(got) else None!r}", case)
     # 3. ingest_line: model DeltaModel/Ingest.lean, hook machine.ingest, binary pass-through (b-ansi, vlib/ingest.py)
     from .. import ingest
     ingest.ingest_check(ctx, rep)
